@@ -11,11 +11,6 @@ func (p *planner) analyzeScript() {
 
 	p.labelsJoinIdx = -1
 
-	p.metrics15Shortcut = AnalyzeMetrics15sShortcut(p.script)
-	if p.metrics15Shortcut {
-		return
-	}
-
 	p.simpleLabelOperation = make([]bool, len(pipeline))
 	for i, ppl := range pipeline {
 		if ppl.LabelFilter != nil {
@@ -24,6 +19,12 @@ func (p *planner) analyzeScript() {
 		if ppl.Parser != nil {
 			break
 		}
+	}
+
+	// the shortcut keeps the label filters on the stream labels: planTS applies them to the fingerprints
+	p.metrics15Shortcut = AnalyzeMetrics15sShortcut(p.script)
+	if p.metrics15Shortcut {
+		return
 	}
 
 	for i, ppl := range pipeline {
@@ -75,22 +76,18 @@ func AnalyzeMetrics15sShortcut(script *logql_parser.LogQLScript) bool {
 	if duration.Seconds() < 15 {
 		return false
 	}
-	if lraOrUnwrap.StrSel.Pipelines != nil &&
-		lraOrUnwrap.StrSel.Pipelines[len(lraOrUnwrap.StrSel.Pipelines)-1].Unwrap != nil {
-		return false
-	}
+	// metrics_15s holds counts per stream: besides label filters on the stream labels only a line
+	// filter that keeps every line can be answered from it (no parser, drop, format, unwrap, != "", !~ "")
 	for _, ppl := range lraOrUnwrap.StrSel.Pipelines {
-		if ppl.Parser != nil {
+		if ppl.LabelFilter != nil {
+			continue
+		}
+		if ppl.LineFilter == nil || (ppl.LineFilter.Fn != "|=" && ppl.LineFilter.Fn != "|~") {
 			return false
 		}
-		if ppl.Drop != nil {
+		str, err := ppl.LineFilter.Val.Unquote()
+		if str != "" || err != nil {
 			return false
-		}
-		if ppl.LineFilter != nil {
-			str, err := ppl.LineFilter.Val.Unquote()
-			if str != "" || err != nil {
-				return false
-			}
 		}
 	}
 	return true
